@@ -270,24 +270,79 @@ theorem lexPos_out : ∀ (f : Nat) (rest : Chars) (base : Nat) (prev : String),
 
 /-! ## 5. rendering the message -/
 
-/-- `FriendlyErrorMessage` returns iff the end column is not more than one to the left of the
-    start column (its two `strings.Repeat` counts are non-negative) -/
-theorem render_total_partial (startCol endCol : Nat) :
-    renderOk startCol endCol = true ↔ startCol ≤ endCol + 1 := by
+/-- **`FriendlyErrorMessage` renders whatever the span** (`render_total`; until the repair
+    `fix: keep the caret line of a parse error inside the quoted line` this was
+    `render_total_partial`, an equivalence with `startCol ≤ endCol + 1`).  For EVERY pair of
+    start and end positions (lines and columns unrelated: same line, later line, earlier
+    line) and every length of the quoted line, both `strings.Repeat` counts are
+    non-negative. -/
+theorem render_total (startLine startCol endLine endCol lineLen : Nat) :
+    renderOk startLine startCol endLine endCol lineLen = true := by
   unfold renderOk padCount caretCount
+  rw [Bool.and_eq_true, decide_eq_true_iff, decide_eq_true_iff]
+  constructor
+  · split <;> omega
+  · simp only; split <;> omega
+
+/-- … and it draws at least one caret, after exactly `startCol` blanks -/
+theorem caret_at_least_one (startLine startCol endLine endCol lineLen : Nat) :
+    1 ≤ caretCount startLine startCol endLine endCol lineLen ∧ padCount startCol = startCol := by
+  unfold padCount caretCount
+  constructor
+  · simp only; split <;> omega
+  · split <;> omega
+
+/-- a span that does not end on the line it starts on is underlined from its start column to
+    the end of the quoted line: for every start column inside a quoted line of `lineLen` runes,
+    blanks and carets together are exactly as long as the quoted line -/
+theorem render_multi_line_to_line_end (startLine startCol endLine endCol lineLen : Nat)
+    (hl : endLine ≠ startLine) (hc : startCol < lineLen) :
+    padCount startCol + caretCount startLine startCol endLine endCol lineLen = lineLen := by
+  have hp := (caret_at_least_one startLine startCol endLine endCol lineLen).2
+  unfold caretCount
+  rw [if_pos hl, hp]
+  simp only; split <;> omega
+
+/-- The full statement (false before the repair, when it was `def C20_full_render : Prop`
+    with the counterexample below): the message of an error spanning ANY two offsets of a
+    text, quoting the line `GetLineText` returns for its start, renders. -/
+theorem C20_full_render (src : Chars) (s e : Nat) (eof : Bool) :
+    renderOk (posAt src s).line (posAt src s).col (posAt src e).line (posAt src e).col
+      (getLineText src s eof).length = true :=
+  render_total _ _ _ _ _
+
+/-- ``x := `abc⏎def` 1`` (the pre-fix counterexample): the backtick token spans offsets 5…13 =
+    (line 1, col 6)…(line 2, col 4); the quoted line ``x := `abc`` has 9 runes: 5 blanks and
+    4 carets, up to the end of the quoted line -/
+example :
+    let src : Chars := [120, 32, 58, 61, 32, 96, 97, 98, 99, 10, 100, 101, 102, 96, 32, 49]
+    (padCount (posAt src 5).col,
+     caretCount (posAt src 5).line (posAt src 5).col (posAt src 13).line (posAt src 13).col
+       (getLineText src 5 false).length) = (5, 4) := by decide
+
+/-! ### Historical: the counts before the repair -/
+
+/-- HISTORICAL (`render_total_partial` before the repair): the pre-fix `FriendlyErrorMessage`
+    returned iff the end column was not more than one to the left of the start column (its
+    two `strings.Repeat` counts non-negative) -/
+theorem preFix_render_iff (startCol endCol : Nat) :
+    preFixRenderOk startCol endCol = true ↔ startCol ≤ endCol + 1 := by
+  unfold preFixRenderOk preFixPadCount preFixCaretCount
   rw [Bool.and_eq_true, decide_eq_true_iff, decide_eq_true_iff]
   constructor
   · intro h; omega
   · intro h; constructor <;> omega
 
-/-- the full statement: the message of an error spanning offsets `s ≤ e` of a text renders -/
-def C20_full_render : Prop :=
+/-- the full statement about the PRE-FIX renderer (false): the message of an error spanning
+    offsets `s ≤ e` of a text renders -/
+def C20_preFix_full_render : Prop :=
   ∀ (src : Chars) (s e : Nat), s ≤ e → e ≤ src.length →
-    renderOk (posAt src s).col (posAt src e).col = true
+    preFixRenderOk (posAt src s).col (posAt src e).col = true
 
-/-- ``x := `abc⏎def` 1``: the backtick token spans offsets 5…13 = (line 1, col 6)…(line 2,
-    col 4); the caret count is 3 - 5 + 1 < 0: `strings.Repeat` panics. -/
-theorem C20_counterexample_multiline_span : ¬ C20_full_render := by
+/-- HISTORICAL (finding `C20-multiline-span-render-panic`, repaired).  ``x := `abc⏎def` 1``:
+    the backtick token spans offsets 5…13 = (line 1, col 6)…(line 2, col 4); the pre-fix caret
+    count was 3 - 5 + 1 < 0: `strings.Repeat` panicked. -/
+theorem C20_fixed_multiline_span_panicked : ¬ C20_preFix_full_render := by
   intro h
   have := h [120, 32, 58, 61, 32, 96, 97, 98, 99, 10, 100, 101, 102, 96, 32, 49] 5 13 (by decide) (by decide)
   revert this
@@ -375,17 +430,63 @@ theorem quoted_line_verbatim (src : Chars) (off : Nat) (h : off ≤ src.length) 
   obtain ⟨_, h2, _, _, h5, h6⟩ := positions_in_source src off h
   exact getLineText_eq src off _ h2 h h5 h6
 
-/-- **Rendering succeeds for every span inside one line.**  For every text and offsets
+/-- no newline between two offsets: the same number of newlines before both -/
+theorem count_take_no_newline (src : Chars) (s : Nat) :
+    ∀ e, s ≤ e → (∀ j, s ≤ j → j < e → src[j]? ≠ some 10) →
+      (src.take e).count 10 = (src.take s).count 10 := by
+  intro e
+  induction e with
+  | zero =>
+    intro h _
+    have : s = 0 := by omega
+    subst this; rfl
+  | succ e ih =>
+    intro h hj
+    by_cases hs : s = e + 1
+    · subst hs; rfl
+    · have h1 := ih (by omega) (fun j a b => hj j a (by omega))
+      have hne := hj e (by omega) (by omega)
+      rw [List.take_add_one, List.count_append, h1]
+      cases hx : src[e]? with
+      | none => simp
+      | some c =>
+        rw [hx] at hne
+        have hc : c ≠ 10 := fun hh => hne (by rw [hh])
+        simp [hc]
+
+/-- HISTORICAL (`render_single_line` before the repair): for every text and offsets
     `s ≤ e ≤ length` whose positions share their `lineStart` (start and end of the error lie on
-    the same line), `FriendlyErrorMessage` returns.  This is `render_total_partial` with its
+    the same line), the pre-fix `FriendlyErrorMessage` returned — `preFix_render_iff` with its
     guard discharged from the position bookkeeping. -/
-theorem render_single_line (src : Chars) (s e : Nat) (hs : s ≤ e) (he : e ≤ src.length)
+theorem preFix_render_single_line (src : Chars) (s e : Nat) (hs : s ≤ e) (he : e ≤ src.length)
     (hsame : (posAt src s).lineStart = (posAt src e).lineStart) :
-    renderOk (posAt src s).col (posAt src e).col = true := by
+    preFixRenderOk (posAt src s).col (posAt src e).col = true := by
   obtain ⟨_, _, c1, _, _, _⟩ := positions_in_source src s (by omega)
   obtain ⟨_, _, c2, _, _, _⟩ := positions_in_source src e he
-  rw [render_total_partial, c1, c2, hsame]
+  rw [preFix_render_iff, c1, c2, hsame]
   omega
+
+/-- **The repair changes nothing inside one line.**  For every text and offsets
+    `s ≤ e ≤ length` whose positions share their `lineStart` (exactly the spans that rendered
+    before), the repaired `FriendlyErrorMessage` draws the blanks and the carets the old one
+    drew, whatever line it quotes. -/
+theorem render_single_line_unchanged (src : Chars) (s e : Nat) (hs : s ≤ e) (he : e ≤ src.length)
+    (hsame : (posAt src s).lineStart = (posAt src e).lineStart) (lineLen : Nat) :
+    padCount (posAt src s).col = preFixPadCount (posAt src s).col ∧
+    caretCount (posAt src s).line (posAt src s).col (posAt src e).line (posAt src e).col lineLen
+      = preFixCaretCount (posAt src s).col (posAt src e).col := by
+  obtain ⟨_, b1, c1, l1, _, _⟩ := positions_in_source src s (by omega)
+  obtain ⟨_, b2, c2, l2, n2, _⟩ := positions_in_source src e he
+  have hline : (posAt src e).line = (posAt src s).line := by
+    rw [l1, l2]
+    exact count_take_no_newline src s e hs (fun j a b => n2 j (by omega) b)
+  have hp : padCount (posAt src s).col = preFixPadCount (posAt src s).col := by
+    unfold padCount preFixPadCount; split <;> omega
+  refine ⟨hp, ?_⟩
+  have hne : ¬ ((posAt src e).line ≠ (posAt src s).line) := fun h => h hline
+  unfold caretCount preFixCaretCount
+  simp only [if_neg hne]
+  rw [c1, c2, hsame]; split <;> omega
 
 /-- non-vacuity: in `x := 1⏎y := ` the offsets 7…10 lie on line 2 -/
 example : (posAt [120, 32, 58, 61, 32, 49, 10, 121, 32, 58, 61, 32] 7).lineStart
